@@ -181,7 +181,31 @@ RULE = (
     "get_atomic_grid -1 / 0 / n-1 / n, integrate size -1 / 0 / +1, default radial grid at Z = 0, 1, 57, 58, 71, 72, 82, 83), end-to-end samples "
     "at exactly 1.2 bohr and at exponents within 1 % of 0.3 and 30; class 11: fresh-interpreter first calls with store=True; class 13 does "
     "not apply (no solver). interpolate on real AtomGrids: mg.interpolate(f)(points, ...) = sum over atoms of "
-    "AtomGrid.interpolate((aim*f)[segment])(points, ...) for several derivative options and amplitudes 1e-12 .. 1e12"
+    "AtomGrid.interpolate((aim*f)[segment])(points, ...) for several derivative options and amplitudes 1e-12 .. 1e12. "
+    "ROUND 4 (harness/props/c07_r4.py; corr and oracle run as independent crash-proof parts: an exception of one part never hides the others, an "
+    "exception raised inside the library on an input of the quantifier is a failure `<key>:raises` with a replay): in every run molecules with "
+    "4, 8 and one of 5-7 atoms (all of 4-8 in the thorough tier) of different sizes through MolGrid(...) with BeckeWeights, from_preset, from_size, "
+    "from_pruned by degrees and by sizes, both values of store, default / explicit / observing aim-weights callable: AFTER the construction the "
+    "index table against running sums computed by the harness, every get_atomic_grid(k) / mg[k] / segment against the hand-built atomic grid, "
+    "aim_weights against BeckeWeights on pristine copies, the integral decomposition and interpolate (1, 2 or 4 points, three derivative options) "
+    "on the hand-made segments, a second construction from the same argument objects, the first grid unchanged; class 14: radial grids holding "
+    "int64 / int32 / uint8 / float32 / float16 / bool / read-only / strided / negative-stride / view arrays handed to every constructor and atomic "
+    "grids holding such (and Fortran-ordered, longdouble) arrays handed to MolGrid(...) vs the float64 computation on the same numbers, dtype "
+    "included; function values and query points of these kinds for interpolate / integrate; class 15: omitted vs None vs the default spelled out "
+    "for rgrid / aim_weights / rotate / store / s_sectors, positional vs keyword for every parameter of the four constructors, get_atomic_grid, "
+    "interpolate and its callable, d_sectors and s_sectors both given (valid, other and integer degrees: the sizes win); class 16: atnums / "
+    "atcoords / radius as views into larger arrays with guard bytes, one inner sector list for every atom, one radial grid object, nine calls "
+    "over the four constructors incl. the same one three times, each vs pristine-copy references, earlier grids unchanged; one aim array for "
+    "three grids, one function-value array and one point array for three rounds of integrate / interpolate; class 17: aim-weights callables "
+    "returning complex128 / complex64 / longdouble / float32 / float16 / int64 / bool / lists / 0-d array / Python float, complex, int / NumPy bool "
+    "and a kind changing from call to call (weights = atweights * returned values exactly, integrals of real and complex f, real / imaginary "
+    "parts), complex and longdouble function values for integrate / interpolate (MolGrid = sum over atoms; linearity where the atomic layer is "
+    "linear); class 18: 19 rejected constructor calls and 14 rejected requests on one object, in random order, each followed by accepted calls "
+    "compared with the answers before any rejection / on a new object, arguments unchanged; class 19: atom pairs H-H, H-Cs, O-H, H-He, Cl-Li "
+    "1e-6 .. 1e9 bohr apart with the default radial grids (structure, aim weights finite in [0, 1], 1 % Gaussian integral on 'fine': measured "
+    "envelope 0.4 %), radial grids next to the singular end of BeckeRTransform / HandyModRTransform (radii to 4e3 bohr) and a 1e-9 .. 1e-6 bohr "
+    "interval through every route; class 20: atoms of pairwise different sizes, 1 / 2 / 4 / 5 query points, molecules with 1 .. 8 atoms in the "
+    "small-array and fan-out correspondence"
 )
 TRUSTED_BASE = [
     "Lean 4.33 kernel; axioms propext, Classical.choice, Quot.sound only (audited per theorem)",
@@ -215,6 +239,86 @@ KEY_GETITEM = "molgrid.MolGrid.__getitem__:store"
 PRESETS_ALL = ["coarse", "medium", "fine", "veryfine", "ultrafine", "insane", "sg_0", "sg_1", "sg_2", "sg_3",
                "g1", "g2", "g3", "g4", "g5", "g6", "g7"]
 ELEMENTS = [1, 6, 7, 8, 9, 15, 16, 17]
+
+
+
+# ------------------------------------------------------------------------------------------
+# round 4: crash-proof parts.  Every part of corr / oracle runs through `_part`; an exception of one part never hides what the
+# others find.  An exception raised *inside the library* (a frame of src/grid in the traceback) on inputs of the property's
+# quantifier is a failure of its own ("<key>:raises", with a replay snippet that turns it into an AssertionError); an exception of
+# the harness / driver / translator is kept and re-raised after all parts have run.
+# ------------------------------------------------------------------------------------------
+WRAP_HEAD = "try:\n"
+WRAP_TAIL = ("\nexcept AssertionError:\n    raise\nexcept Exception as _e:\n"
+             "    raise AssertionError(f'{_KEY}:raises :: ' + type(_e).__name__ + ': ' + str(_e)[:300])\n")
+
+
+def _from_library(exc) -> bool:
+    import traceback
+    from ..common import SRC
+    root = str(SRC)
+    return any(str(fr.filename).startswith(root) for fr in traceback.extract_tb(exc.__traceback__))
+
+
+def _wrapped(code: str, key: str) -> str:
+    """the snippet with every non-assertion exception turned into an AssertionError (for the replay)"""
+    body = "\n".join("    " + ln for ln in code.split("\n"))
+    return f"_KEY = {key!r}\n" + WRAP_HEAD + body + WRAP_TAIL
+
+
+def _deferred(ctx):
+    if not hasattr(ctx, "_c07_deferred"):
+        ctx._c07_deferred = []
+    return ctx._c07_deferred
+
+
+def _exec_snippet(ctx, code, key, witness, filename="<c07>"):
+    """exec a replay snippet (the snippet is the oracle). -> (namespace or None if it failed / crashed)"""
+    ns = {"__name__": "c07_snippet"}
+    try:
+        exec(compile(code, filename, "exec"), ns)
+        return ns
+    except AssertionError as e:
+        k, _, what = str(e).partition(" :: ")
+        ctx.fail("oracle", k.strip() if what else key, (what or str(e))[:500], witness=witness, snippet=code)
+    except Exception as e:  # noqa: BLE001
+        if _from_library(e):
+            ctx.fail("oracle", key + ":raises", f"the library raises {type(e).__name__}: {str(e)[:300]} on an input of the property's quantifier",
+                     witness=witness, snippet=_wrapped(code, key))
+        else:
+            import traceback
+            _deferred(ctx).append((key, e, traceback.format_exc()[-1500:]))
+            ctx.info(f"harness exception in a snippet of {key} (kept, re-raised after all parts): {type(e).__name__}: {str(e)[:200]}")
+    return None
+
+
+def _part(ctx, stage, name, fn):
+    """run one independent part of corr / oracle"""
+    from ..common import DriverError
+    try:
+        fn()
+    except DriverError as e:
+        _deferred(ctx).append((name, e, str(e)[-1500:]))
+        ctx.info(f"{stage} part {name}: driver unusable ({str(e)[:200]}); the implementation-only parts still run")
+    except Exception as e:  # noqa: BLE001
+        import traceback
+        if _from_library(e) and stage == "oracle":
+            ctx.fail("oracle", f"molgrid:{name}:raises", f"the library raises {type(e).__name__}: {str(e)[:300]} inside the oracle part {name} "
+                     "(inputs of the property's quantifier)", witness=traceback.format_exc()[-1500:])
+        else:
+            _deferred(ctx).append((name, e, traceback.format_exc()[-1500:]))
+            ctx.info(f"{stage} part {name} raised {type(e).__name__}: {str(e)[:200]} (kept, re-raised after all parts)")
+
+
+def _reraise(ctx, stage):
+    d = _deferred(ctx)
+    if d:
+        name, e, tb = d[0]
+        ctx._c07_deferred = []
+        from ..common import DriverError
+        if isinstance(e, DriverError):
+            raise e
+        raise RuntimeError(f"{stage}: {len(d)} part(s) crashed in the harness; first: {name}: {type(e).__name__}: {e}\n{tb}") from e
 
 
 def _mods():
@@ -259,7 +363,7 @@ FORCED_SMALL = [
 
 def _small_case(ctx: Ctx, bg, forced=None):
     rng = ctx.rng
-    n = rng.choice([0, 1, 1, 1, 2, 2, 2, 2, 3, 3, 3, 4, 4]) if forced is None else len(forced[0])
+    n = rng.choice([0, 1, 1, 1, 2, 2, 2, 2, 3, 3, 3, 4, 4, 5, 6, 8]) if forced is None else len(forced[0])    # round 4: up to 8 atoms
     grids, parts = [], []
     duck = False
     mag = None
@@ -712,7 +816,7 @@ def _corr_fanout(ctx: Ctx, mg, ag, bk, od):
                      ["from_preset", atnums, nc, ptok, rtok, rotate, int(store), aimkind]))
     # ---------------- from_size
     for _ in range(ctx.n(80, 1000)):
-        n = rng.choice([1, 2, 2, 3, 4])
+        n = rng.choice([1, 2, 2, 3, 4, 5, 8])
         atnums = [rng.choice(ELEMENTS + ([58] if rng.random() < 0.1 else [])) for _ in range(n)]
         nc = n if rng.random() < 0.8 else max(1, n + rng.choice([-1, 1]))
         atcoords = _mol(ctx, nc)
@@ -741,7 +845,7 @@ def _corr_fanout(ctx: Ctx, mg, ag, bk, od):
                      ["from_size", atnums, nc, rtok, size, rotate, int(store), aimkind]))
     # ---------------- from_pruned
     for _ in range(ctx.n(200, 2500)):
-        n = rng.choice([1, 2, 2, 3, 3, 4])
+        n = rng.choice([1, 2, 2, 3, 3, 4, 6])
         atnums = [rng.choice(ELEMENTS + ([58] if rng.random() < 0.05 else [])) for _ in range(n)]
         nc = n if rng.random() < 0.96 else max(1, n + rng.choice([-1, 1]))
         atcoords = _mol(ctx, nc)
@@ -859,11 +963,18 @@ def _corr_save(ctx: Ctx, mg, ag, od):
 
 def corr(ctx: Ctx):
     mg, ag, bg, bk, od = _mods()
-    _corr_small(ctx, mg, bg)
-    _corr_fanout(ctx, mg, ag, bk, od)
-    _corr_save(ctx, mg, ag, od)
     from . import c07_ext
-    c07_ext.corr(ctx, mg, ag, bk, od)
+    parts = [
+        ("small", lambda: _corr_small(ctx, mg, bg)),
+        ("fanout", lambda: _corr_fanout(ctx, mg, ag, bk, od)),
+        ("save", lambda: _corr_save(ctx, mg, ag, od)),
+        ("interp", lambda: c07_ext.corr_interp(ctx, mg)),
+        ("defaults", lambda: c07_ext.corr_defaults(ctx, mg, ag, bk, od)),
+        ("default-rgrid", lambda: c07_ext.corr_default_rgrid(ctx, mg)),
+    ]
+    for name, fn in parts:
+        _part(ctx, "corr", name, fn)
+    _reraise(ctx, "corr")
 
 
 # ------------------------------------------------------------------------------------------
@@ -971,11 +1082,7 @@ def _oracle_structure(ctx: Ctx, budget, mg, ag, bk, od):
                       use_arr=rng.random() < 0.4, seed=rng.randrange(2 ** 31))
         code = SNIPPET_STRUCT.format(**params)
         ctx.count(["oracle-structure", atnums, params["nrad"], params["degs"], params["use_arr"]], nontrivial=n >= 2, tag="oracle:structure")
-        try:
-            exec(compile(code, "<c07-structure>", "exec"), {"__name__": "c07_structure"})  # the replay snippet itself is the oracle
-        except AssertionError as e:
-            key, _, what = str(e).partition(" :: ")
-            ctx.fail("oracle", key.strip(), what[:400], witness=params, snippet=code)
+        _exec_snippet(ctx, code, "molgrid.MolGrid", params, "<c07-structure>")  # the replay snippet itself is the oracle
     # the known store dependence of __getitem__ (KNOWN_FINDINGS): replayed on every run
     rg = od.GaussLaguerre(6)
     coords = np.array([[0.0, 0.0, -0.7], [0.0, 0.0, 0.7]])
@@ -1054,11 +1161,7 @@ def _oracle_fanout(ctx: Ctx, budget, mg, ag, bk, od):
         wit = {"constructor": which, "atnums": atnums, "coords": coords, "rgrid": form, "preset": pform, "rotate": rotate, "store": store}
         code = SNIPPET_FANOUT.format(which=which, form=form, pform=pform, rotate=rotate, store=store, atnums=atnums, coords=coords)
         ctx.count(["oracle-fanout", which, atnums, form, pform, rotate], nontrivial=True, tag=f"oracle:fanout:{which}")
-        try:
-            exec(compile(code, "<c07-fanout>", "exec"), {"__name__": "c07_fanout"})  # the replay snippet itself is the oracle
-        except AssertionError as e:
-            ctx.fail("oracle", f"molgrid.MolGrid.{which}:fanout", str(e)[:300] + f" (rgrid given as {form}, preset as {pform})",
-                     witness=wit, snippet=code)
+        _exec_snippet(ctx, code, f"molgrid.MolGrid.{which}:fanout", wit, "<c07-fanout>")  # the replay snippet itself is the oracle
 
 
 def _default_rgrid_reference(z, table):
@@ -1585,20 +1688,17 @@ def _lattice_mol(ctx, n, step=0.125, box=2.5, dmin=1.2):
 def _run_snippet(ctx, body, P, tag, nontrivial=True):
     """exec PRELUDE + P + body (the replay snippet is the oracle). -> (namespace or None)"""
     code = KINDS_PRELUDE + "P = " + repr(P) + "\n" + body
-    ns = {"__name__": "c07_kinds"}
-    try:
-        exec(compile(code, "<c07-kinds>", "exec"), ns)
-    except AssertionError as e:
-        key, _, what = str(e).partition(" :: ")
-        ctx.count([tag, {k: v for k, v in P.items() if k not in ("prelude", "body")}], nontrivial=nontrivial, tag=tag + ":FAIL")
-        ctx.fail("oracle", key.strip() if what else P["key"], (what or str(e))[:500],
-                 witness={k: v for k, v in P.items() if k not in ("prelude", "body")}, snippet=code)
+    wit = {k: v for k, v in P.items() if k not in ("prelude", "body")}
+    nfail = len(ctx.failures)
+    ns = _exec_snippet(ctx, code, P["key"], wit, "<c07-kinds>")
+    if ns is None:
+        ctx.count([tag, wit], nontrivial=nontrivial, tag=tag + (":FAIL" if len(ctx.failures) > nfail else ":CRASH"))
         return None
     rej = ns.get("REJECTED")
-    ctx.count([tag, {k: v for k, v in P.items() if k not in ("prelude", "body")}], nontrivial=nontrivial,
-              tag=tag + (f":rejected:{rej}" if rej else ":ok"))
+    ctx.count([tag, wit], nontrivial=nontrivial, tag=tag + (f":rejected:{rej}" if rej else ":ok"))
     for note in ns.get("NOTES", []):
-        ctx.info(note)
+        if note not in ctx.infos:
+            ctx.info(note)
     return ns
 
 
@@ -1846,13 +1946,19 @@ def oracle_at(ctx: Ctx, failure):
 
 def oracle(ctx: Ctx, budget: str):
     mg, ag, bg, bk, od = _mods()
-    _oracle_structure(ctx, budget, mg, ag, bk, od)
-    _oracle_fanout(ctx, budget, mg, ag, bk, od)
-    _oracle_default_rgrid(ctx, budget, mg)
-    _oracle_kinds(ctx, budget)
-    _oracle_aim_kinds(ctx, budget)
-    _oracle_presets(ctx, budget)
-    _oracle_history(ctx, budget)
-    from . import c07_ext
-    c07_ext.oracle(ctx, budget)
-    _oracle_end_to_end(ctx, budget, mg, ag)
+    from . import c07_ext, c07_r4
+    parts = [
+        ("structure", lambda: _oracle_structure(ctx, budget, mg, ag, bk, od)),
+        ("fanout", lambda: _oracle_fanout(ctx, budget, mg, ag, bk, od)),
+        ("default-rgrid", lambda: _oracle_default_rgrid(ctx, budget, mg)),
+        ("kinds", lambda: _oracle_kinds(ctx, budget)),
+        ("aim-kinds", lambda: _oracle_aim_kinds(ctx, budget)),
+        ("presets", lambda: _oracle_presets(ctx, budget)),
+        ("history", lambda: _oracle_history(ctx, budget)),
+    ]
+    parts += [("r3:" + nm, (lambda fn=fn: fn(ctx, budget))) for nm, fn in c07_ext.ORACLE_PARTS]
+    parts += [("r4:" + nm, (lambda fn=fn: fn(ctx, budget))) for nm, fn in c07_r4.ORACLE_PARTS]
+    parts.append(("end-to-end", lambda: _oracle_end_to_end(ctx, budget, mg, ag)))
+    for name, fn in parts:
+        _part(ctx, "oracle", name, fn)
+    _reraise(ctx, "oracle")
